@@ -13,7 +13,7 @@ one() {
   id=$1; OUT=$2
   d=$OUT/$id; mkdir -p $d/repo $d/verif
   rsync -a --exclude .git /repo/ $d/repo/
-  cp /verif/known_findings.json /verif/anchors.json $d/verif/
+  cp /verif/known_findings.json /verif/anchors.json /verif/fields.json $d/verif/
   if ! (cd $d/repo && patch -p1 -s --no-backup-if-mismatch < /verif/seeded/$id/patch.diff >/dev/null 2>&1); then
     echo "{\"seed\":\"$id\",\"applies\":false}" > $OUT/$id.json; rm -rf $d; return
   fi
